@@ -155,12 +155,17 @@ func vfCheck3MF(batches [][]*sdf.Triangle3, all []*sdf.Triangle3, nsym int) {
 	if vfLibCalls("3mf.Triangle") != n {
 		return
 	}
-	tol := vfTol(0, 0.00011) // exact under the stub; the file holds four decimals (native replay)
+	tol := vfTol(0, 0.000051) // exact under the stub; the file holds four decimals (native replay)
+	half := 0.000051          // half a unit of the fourth decimal (+ float32 noise): what a reader of the file can tell
 	for k, t := range all {
 		if k >= nsym && k != n-1 && k%64 != 0 {
 			continue
 		}
 		for i := 0; i < 3; i++ {
+			if k < nsym {
+				// the same with the file's resolution as the margin, so that a counterexample is visible in the written file
+				vfAssert(vfAnd(vfNear(vfLib3MFCorner(k, i, 0), float64(float32(t[i].X)), half), vfAnd(vfNear(vfLib3MFCorner(k, i, 1), float64(float32(t[i].Y)), half), vfNear(vfLib3MFCorner(k, i, 2), float64(float32(t[i].Z)), half))), "To3MF: corner within half a unit of the fourth decimal of the float32 rounding of the input")
+			}
 			vfAssert(vfNear(vfLib3MFCorner(k, i, 0), float64(float32(t[i].X)), tol), "To3MF: corner x is the float32 rounding of the input, order and winding preserved")
 			vfAssert(vfNear(vfLib3MFCorner(k, i, 1), float64(float32(t[i].Y)), tol), "To3MF: corner y is the float32 rounding of the input, order and winding preserved")
 			vfAssert(vfNear(vfLib3MFCorner(k, i, 2), float64(float32(t[i].Z)), tol), "To3MF: corner z is the float32 rounding of the input, order and winding preserved")
